@@ -33,6 +33,7 @@ USER = "user"
 PASSWD = "1234"
 PERM = "elradfmwMT"
 VARIANTS = ("normal", "anonymous", "nomlsd")
+PASSIVE_PORTS = range(20000, 32000)     # below the kernel's ephemeral range; shared by all servers, see Server.__init__
 CLIENT_TIMEOUT = 4           # seconds FTPFS waits for the server (a wedged control connection must not cost more)
 
 _LIVE = {}                   # id -> Server, of the servers started by THIS process
@@ -95,6 +96,11 @@ class Server(object):
             _Handler.banner = "pyfs2verif loop-back server"
             _Handler.auth_failed_timeout = 0.001
             _Handler.use_sendfile = False
+            # every transfer (also every LIST) is a data connection of its own.  Left to the kernel, each passive
+            # listener takes a fresh ephemeral port that then sits in TIME_WAIT for a minute: a check that lists
+            # directories flat out (or several checks at once) runs the machine out of local ports.  With a port
+            # range pyftpdlib binds with SO_REUSEADDR, so ports in TIME_WAIT are taken again (busy ones: next try).
+            _Handler.passive_ports = PASSIVE_PORTS
             if variant == "nomlsd":
                 cmds = dict(FTPHandler.proto_cmds)
                 cmds.pop("MLSD", None)
